@@ -36,8 +36,8 @@ let () =
        (match run variant (n_of_int 70) [cap; n] [] with
         | Ok toks -> Buffer.add_string buf (String.concat " " ("ok" :: List.map show_tok toks))
         | _ -> Buffer.add_string buf "modelerror")
-     | ("bldtags" | "bldavp" | "bldl2" | "bldrelay" | "bldd6" | "bld82") as e :: na :: bs ->
-       let id = match e with "bldtags" -> 80 | "bldavp" -> 81 | "bldl2" -> 82 | "bldrelay" -> 83 | "bldd6" -> 84 | _ -> 85 in
+     | ("bldtags" | "bldavp" | "bldl2" | "bldrelay" | "bldd6" | "bld82" | "bldd4") as e :: na :: bs ->
+       let id = match e with "bldtags" -> 80 | "bldavp" -> 81 | "bldl2" -> 82 | "bldrelay" -> 83 | "bldd6" -> 84 | "bldd4" -> 86 | _ -> 85 in
        (match run_build (n_of_int id) (nums na) (List.map bytes_of_hex bs) with
         | Ok toks -> Buffer.add_string buf (String.concat " " ("ok" :: List.map show_tok toks))
         | Err c -> Buffer.add_string buf ("err " ^ decimal_of_n c)
